@@ -172,6 +172,10 @@ pub fn print_cfg(c: &MCfg) -> String {
     }
     s.push_str(")\n");
     for (i, l) in c.layers.iter().enumerate() {
+        if i < 8 && c.layermap & (1 << i) != 0 {
+            print_layermap(c, i, l, &mut s);
+            continue;
+        }
         s.push_str(&format!("(deflayer l{i}"));
         for a in l {
             s.push(' ');
@@ -179,5 +183,74 @@ pub fn print_cfg(c: &MCfg) -> String {
         }
         s.push_str(")\n");
     }
+    if !c.chords_v2.is_empty() {
+        s.push_str("(defchordsv2");
+        for (ks, a) in &c.chords_v2 {
+            s.push_str("\n  (");
+            for (i, k) in ks.iter().enumerate() {
+                if i > 0 {
+                    s.push(' ');
+                }
+                s.push_str(kname(*k));
+            }
+            s.push_str(") ");
+            print_act(a, &mut s);
+            s.push_str(" 50 all-released ()");
+        }
+        s.push_str(")\n");
+    }
     s
+}
+
+/// Layer `i` written as a deflayermap with the same meaning as the deflayer form.
+fn print_layermap(c: &MCfg, i: usize, l: &[Act], s: &mut String) {
+    let style = (c.layermap >> 8) % 3;
+    let mut pairs: Vec<String> = vec![];
+    let cell = |k: u16, a: &Act| {
+        let mut t = format!("{} ", kname(k));
+        print_act(a, &mut t);
+        t
+    };
+    match style {
+        1 => {
+            // `_` stands for the most frequent action (first one on ties), all others are listed
+            let mut best = 0;
+            let mut best_n = 0;
+            for (j, a) in l.iter().enumerate() {
+                let n = l.iter().filter(|b| *b == a).count();
+                if n > best_n {
+                    best = j;
+                    best_n = n;
+                }
+            }
+            for (j, a) in l.iter().enumerate() {
+                if *a != l[best] {
+                    pairs.push(cell(c.src[j], a));
+                }
+            }
+            let mut t = String::from("_ ");
+            print_act(&l[best], &mut t);
+            let pos = ((c.layermap >> 10) as usize) % (pairs.len() + 1);
+            pairs.insert(pos, t);
+        }
+        2 if !c.block_unmapped => {
+            // keys that are not listed are transparent
+            for (j, a) in l.iter().enumerate() {
+                if *a != Act::Trans {
+                    pairs.push(cell(c.src[j], a));
+                }
+            }
+        }
+        _ => {
+            for (j, a) in l.iter().enumerate() {
+                pairs.push(cell(c.src[j], a));
+            }
+        }
+    }
+    s.push_str(&format!("(deflayermap (l{i})"));
+    for p in pairs {
+        s.push(' ');
+        s.push_str(&p);
+    }
+    s.push_str(")\n");
 }
